@@ -11,6 +11,7 @@ struct Rec {
     instrs: usize,
     starts: usize,
     ends: usize,
+    seq_ids: usize,
     // the traversal as a flat event trace: "(" start of a sequence, ")" end of a sequence, otherwise the instruction kind
     trace: Vec<String>,
 }
@@ -46,9 +47,11 @@ impl<'a> Visitor<'a> for Rec {
     fn visit_data_id(&mut self, _: &walrus::DataId) { self.hit("data") }
     fn visit_type_id(&mut self, _: &walrus::TypeId) { self.hit("type") }
     fn visit_element_id(&mut self, _: &walrus::ElementId) { self.hit("elem") }
+    fn visit_instr_seq_id(&mut self, _: &InstrSeqId) { self.seq_ids += 1 }
 }
 #[derive(Default)]
 struct RecMut {
+    seq_ids: usize,
     ev: BTreeMap<&'static str, usize>,
     instrs: usize,
 }
@@ -67,6 +70,21 @@ impl VisitorMut for RecMut {
     fn visit_data_id_mut(&mut self, _: &mut walrus::DataId) { self.hit("data") }
     fn visit_type_id_mut(&mut self, _: &mut walrus::TypeId) { self.hit("type") }
     fn visit_element_id_mut(&mut self, _: &mut walrus::ElementId) { self.hit("elem") }
+    fn visit_instr_seq_id_mut(&mut self, _: &mut InstrSeqId) { self.seq_ids += 1 }
+}
+/// sequence-id operands of a function, counted on the IR itself without any traversal driver: block / loop 1, if 2 (consequent and
+/// alternative); branch targets are labels, not operands that are visited (`skip_visit` in the IR definition)
+fn seq_id_operands(f: &walrus::LocalFunction, id: InstrSeqId) -> usize {
+    let mut n = 0;
+    for (i, _) in &f.block(id).instrs {
+        match i {
+            Instr::Block(b) => n += 1 + seq_id_operands(f, b.seq),
+            Instr::Loop(l) => n += 1 + seq_id_operands(f, l.seq),
+            Instr::IfElse(e) => n += 2 + seq_id_operands(f, e.consequent) + seq_id_operands(f, e.alternative),
+            _ => {}
+        }
+    }
+    n
 }
 
 /// entity operands of the decoded input operators, by kind (from the operator's field names)
@@ -114,6 +132,9 @@ pub fn visit_module(wasm: &[u8]) -> Result<Option<Value>> {
     if rm.ev != want {
         problems.push(format!("dfs_pre_order_mut reported {:?}, the body's entity operands are {:?}", rm.ev, want));
     }
+    let want_seq_ids = { let f = m.funcs.get(fid).kind.unwrap_local(); seq_id_operands(f, f.entry_block()) };
+    if r.seq_ids != want_seq_ids { problems.push(format!("dfs_in_order reported {} sequence-id operands, the instructions carry {}", r.seq_ids, want_seq_ids)); }
+    if rm.seq_ids != want_seq_ids { problems.push(format!("dfs_pre_order_mut reported {} sequence-id operands, the instructions carry {}", rm.seq_ids, want_seq_ids)); }
     if r.starts != r.ends {
         problems.push(format!("start/end events unbalanced: {} vs {}", r.starts, r.ends));
     }
@@ -231,6 +252,11 @@ pub fn visit_cf(args: &[String]) -> Result<Value> {
             }
             if rm.instrs != r.instrs {
                 return Ok(Some(json!({"what": format!("dfs_pre_order_mut visited {} instructions, dfs_in_order {}", rm.instrs, r.instrs), "body": body})));
+            }
+            // the sequence-id operands (block / loop 1, if 2: consequent and alternative), counted on the IR without a driver
+            let want_seq_ids = { let f = m.funcs.get(fid).kind.unwrap_local(); seq_id_operands(f, f.entry_block()) };
+            if r.seq_ids != want_seq_ids || rm.seq_ids != want_seq_ids {
+                return Ok(Some(json!({"what": format!("the instructions carry {} sequence-id operands; dfs_in_order reported {}, dfs_pre_order_mut {}", want_seq_ids, r.seq_ids, rm.seq_ids), "body": body})));
             }
             Ok(None)
         });
